@@ -20,7 +20,7 @@ DISTINCT = ('config_cells',)
 REQUIRED = ('wrapper_calls', 'signatures', 'repeat_calls_served_from_cache', 'key_pairs_compared', 'expiry_cases',
             'expire_zero_cases', 'falsy_results', 'decorator_cache', 'decorator_fanout', 'decorator_index',
             'decorator_django', 'decorator_stampede', 'derived_name_cases', 'contended_first_calls',
-            'decorator_objects_reused')
+            'decorator_objects_reused', 'stacked_memoizations')
 ASSUMPTIONS = ('two calls are "the same arguments" when positional/keyword binding matches and values are equal under == '
                '(and have equal types when typed); ignored positions/names are removed first',
                'memoize_stampede: the probe runs in ~0 virtual time so early recomputation has probability ~0')
@@ -332,6 +332,31 @@ def extras(dc, sc, res, kind, label):
         if (ra, rb, rc) != (('scope1', 6), ('scope2', 6), ('scope3', 6)):
             res.violation('%s: functions decorated with one decorator object share entries: %r %r %r' % (kind, ra, rb, rc),
                           {'label': label})
+        # stacked memoization: a memoized function (or a functools.wraps wrapper around one) memoized again under another
+        # name keeps a layer of its own - own key maker, own entries
+        import functools
+        calls = []
+
+        def raw(x):
+            calls.append(x)
+            return x * 10
+        inner = deco(raw, name='raw-layer')
+
+        @functools.wraps(inner)
+        def shifted(x):
+            return inner(x) + 7
+        outer = deco(shifted, name='shifted-layer')
+        direct = deco(inner, name='direct-layer')
+        got = (outer(3), inner(3), outer(5), inner(5), direct(3), direct(9), inner(9))
+        res.count('stacked_memoizations')
+        res.count('evaluations')
+        if got != (37, 30, 57, 50, 30, 90, 90) or sorted(calls) != [3, 5, 9]:
+            res.violation('%s: stacked memoized layers share entries: results %r (expected (37, 30, 57, 50, 30, 90, 90)), '
+                          'function ran for %r' % (kind, got, calls), {'label': label})
+        if kind in ('cache', 'fanout', 'index'):
+            bases = (inner.__cache_key__(3)[0], outer.__cache_key__(3)[0], direct.__cache_key__(3)[0])
+            if bases != ('raw-layer', 'shifted-layer', 'direct-layer'):
+                res.violation('%s: the key makers of stacked layers answer with the names %r' % (kind, bases), {'label': label})
         # Django: versions separate entries
         if kind == 'django':
             from diskcache import DjangoCache  # noqa
